@@ -440,9 +440,9 @@ def search(ctx, deep=False):
 
 
 def replay_known(ctx, entry):
-    if _B is not None and hasattr(_B, "replay_known"):
-        return _B.replay_known(ctx, entry)
-    return False
+    if entry.get("class") == "rocc_partial_first_setup":
+        return _R.replay_known(ctx, entry)
+    return _B.replay_known(ctx, entry)
 
 
 def replay(ctx, obj):
